@@ -142,9 +142,18 @@ mod detail {
         let mut bin_op_strings = bin_ops.reprs.iter();
         // a valid expression has at least one node
         let first_node_str = node_strings.next().unwrap();
+        // An operator name that starts or ends like an identifier needs a blank, since, e.g.,
+        // `{x}min3.0` or a binary `at` in front of a unary `an` would be tokenized differently.
+        let is_name_char = |c: Option<char>| c.map(|c| c.is_alphanumeric() || c == '_') == Some(true);
         let node_with_bin_ops_string = node_strings.fold(first_node_str, |mut res, node_str| {
             let bin_op_str = bin_op_strings.next().unwrap();
+            if is_name_char(bin_op_str.chars().next()) {
+                res.push(' ');
+            }
             res.push_str(bin_op_str);
+            if is_name_char(bin_op_str.chars().last()) {
+                res.push(' ');
+            }
             res.push_str(node_str.as_str());
             res
         });
